@@ -296,8 +296,31 @@ pub fn run_plan(fam: &Family, plan: &Value) -> Rec {
     rec
 }
 
-/// current plan of each worker, for the hang watchdog
-static CURRENT: Mutex<Vec<Option<(Instant, String, String)>>> = Mutex::new(Vec::new());
+/// current plan of each worker, for the hang watchdog: (wall-clock start, family, plan, worker thread, its CPU time at the start)
+static CURRENT: Mutex<Vec<Option<(Instant, String, String, u64, f64)>>> = Mutex::new(Vec::new());
+
+/// CPU time consumed so far by thread `tid` (0.0 if it cannot be read)
+#[allow(unsafe_code)]
+fn thread_cpu_of(tid: u64) -> f64 {
+    let mut cid: libc::clockid_t = 0;
+    let mut ts = libc::timespec { tv_sec: 0, tv_nsec: 0 };
+    // SAFETY: tid was obtained from pthread_self() of a worker that is still running its plan
+    unsafe {
+        if libc::pthread_getcpuclockid(tid as libc::pthread_t, &mut cid) != 0 {
+            return 0.0;
+        }
+        if libc::clock_gettime(cid, &mut ts) != 0 {
+            return 0.0;
+        }
+    }
+    ts.tv_sec as f64 + ts.tv_nsec as f64 * 1e-9
+}
+
+#[allow(unsafe_code)]
+fn self_tid() -> u64 {
+    // SAFETY: no preconditions
+    unsafe { libc::pthread_self() as u64 }
+}
 
 pub fn run_family(fam: &Family, plans: &[Value], threads: usize) -> Rec {
     let next = AtomicUsize::new(0);
@@ -319,8 +342,9 @@ pub fn run_family(fam: &Family, plans: &[Value], threads: usize) -> Rec {
                         CURRENT.lock().unwrap()[w] = None;
                         break;
                     }
+                    let tid = self_tid();
                     CURRENT.lock().unwrap()[w] =
-                        Some((Instant::now(), fam.name.to_string(), plans[i].to_string()));
+                        Some((Instant::now(), fam.name.to_string(), plans[i].to_string(), tid, thread_cpu_of(tid)));
                     let rec = run_plan(fam, &plans[i]);
                     results.lock().unwrap()[i] = Some(rec);
                 })
@@ -334,19 +358,24 @@ pub fn run_family(fam: &Family, plans: &[Value], threads: usize) -> Rec {
     total
 }
 
-/// Watchdog: a plan that runs for more than `limit_s` is reported as a hang.  Runs in a
-/// detached thread; on a hang it writes the replay file, prints the VIOLATION line and exits 1.
+/// Watchdog: a plan that has consumed more than `limit_s` seconds of CPU time on its worker thread (wall
+/// time would make a loaded machine look like a hang), or that has been sitting for 15 minutes of
+/// wall time (blocked without consuming CPU), is reported as a hang.  Runs in a detached thread; on a
+/// hang it writes the replay file, prints the VIOLATION line and exits 1.
 pub fn start_watchdog(property: &'static str, limit_s: u64) {
+    // (VERIF_WATCHDOG_S overrides the limit: used to test the watchdog itself)
+    let limit_s = std::env::var("VERIF_WATCHDOG_S").ok().and_then(|s| s.parse().ok()).unwrap_or(limit_s);
     std::thread::spawn(move || loop {
         std::thread::sleep(std::time::Duration::from_millis(1000));
         let c = CURRENT.lock().unwrap();
-        for (t0, fam, plan) in c.iter().flatten() {
-            if t0.elapsed().as_secs() > limit_s {
+        for (t0, fam, plan, tid, cpu0) in c.iter().flatten() {
+            let cpu = thread_cpu_of(*tid) - *cpu0;
+            if cpu > limit_s as f64 || t0.elapsed().as_secs() > 900 {
                 let plan: Value = serde_json::from_str(plan).unwrap_or(Value::Null);
                 let path = write_replay(property, fam, 0, &Violation {
                     class: "hang".into(),
                     site: "watchdog".into(),
-                    detail: format!("plan still running after {limit_s} s"),
+                    detail: format!("plan still running after {:.0} s of CPU time ({} s of wall time)", cpu, t0.elapsed().as_secs()),
                     plan,
                 }, None);
                 println!("VIOLATION property={property} replay={path}");
